@@ -6,7 +6,7 @@ use crate::drive::*;
 use crate::explore::*;
 use serde_json::{Value, json};
 
-const RULE: &str = "every input (F<=k, context x F) x schedule (L0, every 1-cut, byte-wise) x handler set (observers, marker handlers) x a failure injected at EVERY handler invocation index 1..N and, separately, EVERY memory limit 0..M0 (M0 = first limit under which the run succeeds) x the flag combinations (matching flag on, off, only the other flag on), two bail-out handlers registered; oracle: reconstruction equality strip_markers(sink) ++ unwritten input == input, bail-out markers exactly once in registration order after a prefix of the fault-free output and before the raw remainder; without the matching flag nothing is flushed and bail-out handlers do not run; non-trivial = distinct (input, schedule, config, fault) whose failure left unparsed or buffered bytes to flush";
+const RULE: &str = "every input (F<=k, context x F) x schedule (L0, every 1-cut, byte-wise) x handler set (observers, marker handlers) x a failure injected at EVERY handler invocation index 1..N and, separately, EVERY memory limit 0..M0 (M0 = first limit under which the run succeeds; parsing buffer preallocation 0 and M/2) x the flag combinations (matching flag on, off, only the other flag on), two bail-out handlers registered; oracle: reconstruction equality strip_markers(sink) ++ unwritten input == input, bail-out markers exactly once in registration order after a prefix of the fault-free output and before the raw remainder; without the matching flag nothing is flushed and bail-out handlers do not run; non-trivial = distinct (input, schedule, config, fault) whose failure left unparsed or buffered bytes to flush";
 
 fn strip_markers(b: &[u8]) -> Vec<u8> {
     let mut out = Vec::with_capacity(b.len());
@@ -22,7 +22,12 @@ fn strip_markers(b: &[u8]) -> Vec<u8> {
     out
 }
 
-const BAIL: &[u8] = b"\x01B0\x02\x01B1\x02";
+/// The two bail-out markers as they must appear in the sink: in the document's encoding.
+fn bail_bytes(cfg: &Cfg) -> Vec<u8> {
+    let s = format!("\x01B0{0}\x02\x01B1{0}\x02", cfg.bail_marker_suffix);
+    let enc = encoding_rs::Encoding::for_label(cfg.encoding.as_bytes()).unwrap_or(encoding_rs::UTF_8);
+    enc.encode(&s).0.into_owned()
+}
 const KNOWN_PARTIAL: &str = "decoder-held-partial-char";
 
 fn find_sub(h: &[u8], n: &[u8]) -> Option<usize> {
@@ -84,12 +89,13 @@ fn oracle(cfg: &Cfg, input: &[u8], chunks: &[&[u8]], rr: &RunResult, clean_out: 
         return Some(format!("bail-out handlers invoked as {bail_events:?}, expected exactly once each in registration order {want:?}"));
     }
     // structure: P ++ BAIL ++ Q
+    let bail = bail_bytes(cfg);
     let (p, q): (&[u8], &[u8]) = if cfg.bail_out_handlers == 2 {
-        if count_sub(&rr.out, BAIL) != 1 {
+        if count_sub(&rr.out, &bail) != 1 {
             return Some(format!("bail-out markers must appear exactly once, in order; sink = {:?}", lossy(&rr.out)));
         }
-        let pos = find_sub(&rr.out, BAIL).unwrap();
-        (&rr.out[..pos], &rr.out[pos + BAIL.len()..])
+        let pos = find_sub(&rr.out, &bail).unwrap();
+        (&rr.out[..pos], &rr.out[pos + bail.len()..])
     } else {
         (&rr.out[..], &[][..])
     };
@@ -286,6 +292,11 @@ fn explore_input(ctx: &Ctx, sets: &[(Prepared, bool)], input: &[u8], lv: Levels,
             let mut at = |m: usize| -> (bool, (usize, usize, usize)) {
                 let key = digest(&(input, &s.cuts, m, 77u8, &base.cfg.handlers));
                 let rr = try_fault(base.variant(|c| { c.mem = Some((m, 0)); c.graceful_mem = true; }), key);
+                // a preallocated parsing buffer (spare capacity when an append fails)
+                if m >= 2 {
+                    let key2 = digest(&(input, &s.cuts, m, 78u8, &base.cfg.handlers));
+                    try_fault(base.variant(|c| { c.mem = Some((m, m / 2)); c.graceful_mem = true; }), key2);
+                }
                 if !rr.all_ok() {
                     try_fault(base.variant(|c| { c.mem = Some((m, 0)); c.graceful_handler = true; }), key);
                     try_fault(base.variant(|c| { c.mem = Some((m, 0)); }), key);
@@ -395,6 +406,12 @@ pub fn run_check(ctx: &Ctx) -> i32 {
         .into_iter()
         .map(|(_, hs)| (Prepared::new(Cfg { bail_out_handlers: 2, strict: false, ..Cfg::with(hs) }).unwrap(), true))
         .collect();
+    // a legacy encoding, and bail-out handlers whose appended markers contain a non-ASCII character:
+    // what they append must arrive in the document's encoding
+    let legacy: Vec<(Prepared, bool)> = [0usize, 2]
+        .iter()
+        .map(|&i| (Prepared::new(Cfg { bail_out_handlers: 2, strict: false, bail_marker_suffix: "\u{e9}".into(), ..Cfg::with(handler_sets()[i].1.clone()).enc("windows-1252") }).unwrap(), true))
+        .collect();
     let k = F.len();
     let l1 = Levels { l1: true, l2_max_len: 0, bytewise: true, empties: false };
     let l0 = Levels { l1: false, l2_max_len: 0, bytewise: true, empties: false };
@@ -406,6 +423,7 @@ pub fn run_check(ctx: &Ctx) -> i32 {
         sweep(ctx, "18 contexts x F<=1 x 6 handler sets x L0,L1,LB x every handler index x memory limits (every value to len+8, then every failure-moment step)", Space::CtxFrags { k, max: 1 }, &sets, l1, MemSweep::Windows);
         sweep(ctx, "F<=2 x 2 handler sets x L0,L1 x memory limits (every value to len+8, then every failure-moment step)", Space::Frags { k, max: 2 }, &two, l1only, MemSweep::Windows);
         sweep(ctx, "Fcore<=3 x 2 handler sets x L0,LB x every handler index x flags", Space::Frags { k: F_CORE, max: 3 }, &two, l0, MemSweep::None);
+        sweep(ctx, "F<=2 x 2 handler sets in windows-1252 with a non-ASCII character inside the bail-out markers x L0,L1 x every handler index + memory limits", Space::Frags { k, max: 2 }, &legacy, l1only, MemSweep::Windows);
         ambiguity_sweep(ctx);
     } else {
         sweep(ctx, "F<=3 x 6 handler sets x L0,L1,LB x every handler index x flags", Space::Frags { k, max: 3 }, &sets, l1, MemSweep::None);
@@ -413,6 +431,7 @@ pub fn run_check(ctx: &Ctx) -> i32 {
         sweep(ctx, "F<=2 x 6 handler sets x L0,L1,LB x every handler index x EVERY memory limit 0..M0 x flags", Space::Frags { k, max: 2 }, &sets, l1, MemSweep::Every);
         sweep(ctx, "Fcore<=3 x 6 handler sets x L0,L1,LB x handler index + every memory limit", Space::Frags { k: F_CORE, max: 3 }, &sets, l1, MemSweep::Windows);
         sweep(ctx, "18 contexts x F<=2 x 6 handler sets x L0,L1,LB x handler index + memory limit", Space::CtxFrags { k, max: 2 }, &sets, l1, MemSweep::Windows);
+        sweep(ctx, "F<=3 x 2 handler sets in windows-1252 with a non-ASCII character inside the bail-out markers x L0,L1,LB x every handler index + memory limits", Space::Frags { k, max: 3 }, &legacy, l1, MemSweep::Windows);
         ambiguity_sweep(ctx);
     }
     ctx.finish(
